@@ -873,3 +873,89 @@ def limiter_wiring(rep, lib, rid="C08-LIMITER-WIRING"):
             ctor.where())
     else:
         r.ok("create_process#when", "a limiter is built iff skip > 0 or a take is given (take 0 included)", ctor.where())
+
+
+def break_origin(rep, lib, rid="C11-BREAK-ORIGIN"):
+    """Only the limiter decides that no more input is wanted."""
+    r = rep.rule(rid, "no stage but the limiter answers Break on its own: with every successor answering Continue, "
+                 "every non-error return of process() of every other stage (sinks included) is Ok(Continue) - a Break "
+                 "from anywhere else stops the read loop and silently drops the rest of the input",
+                 floor=9, analysis="A5 partial evaluation of each process body with the successor's answer seeded to "
+                                   "Ok(Continue)")
+    from lib.peval import ok as OK
+    adt = lib.adts.get("processor::ProcessDesision")
+    if not adt:
+        r.missing("processor::ProcessDesision")
+        return r
+    names = [v["name"] for v in adt["variants"]]
+    if "Continue" not in names or "Break" not in names:
+        r.missing("ProcessDesision::{Continue,Break}")
+        return r
+    cont = ("adt", names.index("Continue"), ())
+    eq_ok = common.derived_eq_ok(lib)
+    stage_cls, tab = common.stage_classes(lib)
+    DEC_TY = "std::result::Result<processor::ProcessDesision,"
+
+    def evaluate(pb, depth=0, env=None):
+        """Problems of one body returning a decision; local helpers that return a decision are judged the same way
+        and then taken to answer Ok(Continue)."""
+        problems = []
+
+        def model(c, av, envv, pe):
+            if c.trait == PROCESS_TRAIT and c.method() == "process":
+                return (True, OK(cont))
+            if c.dest.get("ty", "").startswith(DEC_TY) and c.resolved in lib.bodies and depth < 3 \
+                    and not (c.callee or "").endswith("from_residual"):
+                env2 = {}
+                for i, v in enumerate(av):
+                    if v is not None and v[0] == "ref":
+                        inner = pe._read(envv, v[1], list(v[2]))
+                        v = ("rv", inner) if inner is not None else None
+                    if v is not None:
+                        env2[i + 1] = v
+                problems.extend(evaluate(lib.bodies[c.resolved], depth + 1, env2))
+                return (True, OK(cont))
+            return None
+        try:
+            res = PE(pb, model, eq_ok=eq_ok, crate=lib).run(env=env)
+        except RuntimeError as e:
+            return ["not evaluated: %s" % e]
+        for bb, v in res.returns:
+            if v is None:
+                # a propagated error (`?`): _0 is written by FromResidual::from_residual on this path
+                srcs = [c for c in pb.calls if c.bb in res.visited and c.dest["l"] == 0 and not c.dest["p"]
+                        and not (c.dest.get("ty", "").startswith(DEC_TY) and c.resolved in lib.bodies
+                                 and not (c.callee or "").endswith("from_residual"))]
+                if srcs and all((c.callee or "").endswith("FromResidual::from_residual") for c in srcs):
+                    continue
+                problems.append("%s: a return whose value is not determined (unrecognised idiom)" % short(pb.name))
+            elif v[0] == "adt" and v[1] == 1:
+                continue          # Err(..)
+            elif v == OK(cont):
+                continue
+            else:
+                what = "Ok(Break)" if (v[0] == "adt" and v[2] and v[2][0] is not None and v[2][0][:2] ==
+                                       ("adt", names.index("Break"))) else "a decision that is not Continue"
+                problems.append("%s returns %s although every successor answered Continue" % (short(pb.name), what))
+        if not res.returns:
+            problems.append("%s: no return reached (unrecognised idiom)" % short(pb.name))
+        return problems
+
+    def short(n):
+        if " as " in n:
+            return n.split(" as ")[0].lstrip("<").rsplit("::", 1)[-1] + "::" + n.rsplit("::", 1)[-1]
+        return "::".join(n.rsplit("::", 2)[-2:])
+
+    for st in common.stages(lib):
+        if stage_cls.get(st.struct) == "limit":
+            continue
+        pb = st.bodies.get("process")
+        if pb is None:
+            r.missing(st.short + "::process")
+            continue
+        problems = evaluate(pb)
+        if problems:
+            r.bad(st.short + "::process", problems[0], pb.where())
+        else:
+            r.ok(st.short + "::process", "every non-error return is Ok(Continue)", pb.where())
+    return r
